@@ -7,6 +7,7 @@ stdout — a panic never matches.
 import SfsModel.Driver.Proto
 import SfsModel.Driver.Io
 import SfsModel.Driver.Stat
+import SfsModel.Model.SpecCli
 namespace Sfs.Drv
 open Sfs
 
@@ -48,6 +49,10 @@ def handlePanic (op : String) (a : List String) (impl : String) : Option Verdict
     | ["OK", "0", _, _] => some (.ok s!"pnany-{cmd}-ok")
     | ["ERR", code, _, "err"] => if code != "0" then some (.ok s!"pnany-{cmd}-err") else some (.bad "OK|0 or ERR|<non-zero>|…|err")
     | _ => some (.bad "OK|0|… or ERR|<non-zero>|…|err  (never a panic; a failing run has a non-zero status and a diagnostic on stderr)")
+  | "pn.input", [cmd, pg, es] =>
+    match inputNew (pg == "1") false (es == "1") with
+    | some sel => some (if impl.startsWith "OK|0|out|" then .ok s!"pninput-{cmd}-{if sel == .path then "path" else "stdin"}" else .bad "OK|0|out|…")
+    | none => some (if impl.startsWith "ERR|1|noout|err" then .ok s!"pninput-{cmd}-refused" else .bad "ERR|1|noout|err")
   | "pn.view", [sh, bs, rm, kp, ps, pi, mk, nm] => do
     let shape ← parseNats sh; let data ← parseBits bs
     let rm ← optNatsP rm; let kp ← optNatsP kp; let ps ← optNatsP ps; let pi ← optNatsP pi
